@@ -56,3 +56,83 @@ def tables():
         "/-- every `assert` statement under rattr/: (file, enclosing function, asserted expression) -/",
         "def assertSites : List (String × String × String) :=\n  [" + ",\n   ".join(triple(t) for t in asserts) + "]",
     ]
+
+
+# ---------------------------------------------------------------------------------------------- round 3
+# The numbers `--stdout stats` computes with (model: lean/RattrModel/Stats.lean). `show_stats` is partial on
+# RattrStats (log10 / two divisions); what keeps it total in a run is the `+ 1` of `read` in another module.
+# Every expression of that chain is pinned here, so "fixing the off-by-one" at either end breaks Tie A.
+
+def _fn(tree, *path):
+    node = tree
+    for name in path:
+        node = next(ch for ch in ast.walk(node)
+                    if isinstance(ch, (ast.FunctionDef, ast.AsyncFunctionDef, ast.ClassDef)) and ch.name == name)
+    return node
+
+
+def stats_exprs(root: Path):
+    out = []
+    util = ast.parse((root / "analyser" / "util.py").read_text())
+    enter = _fn(util, "read", "__enter__")
+    for n in ast.walk(enter):
+        if isinstance(n, ast.Return):
+            out.append(("util.read.__enter__:return", ast.unparse(n.value)))
+        if isinstance(n, ast.Assign):
+            out.append(("util.read.__enter__:assign", ast.unparse(n)))
+    filepy = ast.parse((root / "analyser" / "file.py").read_text())
+    impl = _fn(filepy, "__parse_and_analyse_file_impl")
+    for n in ast.walk(impl):
+        if isinstance(n, ast.With):
+            for it in n.items:
+                if isinstance(it.context_expr, ast.Call) and ast.unparse(it.context_expr.func) == "read":
+                    out.append(("file.impl:with-read", ast.unparse(it.optional_vars)))
+        if isinstance(n, ast.Call) and ast.unparse(n.func) == "RattrStats":
+            for k in n.keywords:
+                if k.arg in ("file_lines", "import_lines", "number_of_imports", "number_of_unique_imports"):
+                    out.append((f"file.impl:RattrStats.{k.arg}", ast.unparse(k.value)))
+        if isinstance(n, ast.Call) and ast.unparse(n.func) == "RattrImportStats":
+            out.append(("file.impl:RattrImportStats", ast.unparse(n)))
+    imps = _fn(filepy, "parse_and_analyse_imports")
+    loop = next(n for n in ast.walk(imps) if isinstance(n, ast.While))
+    for i, st in enumerate(loop.body):
+        if isinstance(st, ast.AugAssign) and "import_stats" in ast.unparse(st.target):
+            out.append((f"file.imports:loop[{'head' if i < 3 else 'tail'}]", ast.unparse(st)))
+        if isinstance(st, ast.With):
+            for it in st.items:
+                if isinstance(it.context_expr, ast.Call) and ast.unparse(it.context_expr.func) == "read":
+                    out.append(("file.imports:with-read", ast.unparse(it.context_expr) + " as " + ast.unparse(it.optional_vars)))
+    for st in imps.body:
+        if isinstance(st, ast.Assign) and isinstance(st.targets[0], ast.Attribute) and "import_stats" in ast.unparse(st.targets[0]):
+            out.append(("file.imports:after-loop", ast.unparse(st)))
+    mainpy = ast.parse((root / "__main__.py").read_text())
+    show = _fn(mainpy, "show_stats")
+    for n in ast.walk(show):
+        if isinstance(n, ast.Assign) and ast.unparse(n.targets[0]) == "digits":
+            out.append(("main.show_stats:digits", ast.unparse(n.value)))
+        if isinstance(n, ast.BinOp) and isinstance(n.op, (ast.Div, ast.FloorDiv, ast.Mod)):
+            out.append(("main.show_stats:division", ast.unparse(n)))
+        if isinstance(n, ast.If):
+            out.append(("main.show_stats:guard", ast.unparse(n.test)))
+        if isinstance(n, ast.Dict) and any(isinstance(v, ast.Attribute) and v.attr in ("file_lines", "import_lines") for v in n.values):
+            out.append(("main.show_stats:lines", ast.unparse(n)))
+    main = _fn(mainpy, "main")
+    for st in main.body:
+        if isinstance(st, ast.If) and "config.arguments.stdout" in ast.unparse(st.test):
+            out.append(("main.main:output", ast.unparse(st.test) + " -> " + "; ".join(ast.unparse(b) for b in st.body)))
+    return out
+
+
+_tables_round2 = tables
+
+
+def tables():
+    import rattr
+
+    root = Path(os.path.dirname(rattr.__file__))
+    rows = stats_exprs(root)
+    return _tables_round2() + [
+        "/-- the expressions behind the numbers of `--stdout stats` (read, RattrStats assembly, show_stats, the output\n"
+        "dispatch of main): (site, unparsed expression), in source order -/",
+        "def statsExprs : List (String × String) :=\n  [" + ",\n   ".join("(" + lstr(a) + ", " + lstr(b) + ")" for a, b in rows) + "]",
+    ]
